@@ -4,6 +4,9 @@
 // compiled only under the build tag "verif").
 package manager
 
+// Every function under contract in this package also serves the properties that depend on the whole package.
+//@ package-props C01 C13
+
 // The completion signal of a target's monitoring goroutine: closing it publishes that
 // the target's last session has been reset (no callback follows). The fact is stable
 // for as long as the name is not added again, which needs the manager lock that Remove
